@@ -102,6 +102,11 @@ func runCheck(repo, verif, prop, tier string, timeout, par int, keep bool) int {
 	evPath := filepath.Join(evDir, prop+".json")
 	os.MkdirAll(filepath.Join(evDir, "replay"), 0o755)
 	os.Remove(evPath)
+	if stale, _ := filepath.Glob(filepath.Join(evDir, "replay", prop+"-*.json")); len(stale) > 0 {
+		for _, f := range stale { // replay files of earlier runs of this property
+			os.Remove(f)
+		}
+	}
 	broken := func(msg string) int {
 		fmt.Printf("BROKEN property=%s %s\n", prop, msg)
 		return 2
@@ -141,6 +146,11 @@ func runCheck(repo, verif, prop, tier string, timeout, par int, keep bool) int {
 	if prop == "C05" {
 		for _, m := range append(append([]string{}, customModules...), "jklmint") {
 			pats = append(pats, "./x/"+m)
+		}
+	}
+	if prop == "C19" {
+		for _, m := range append(append([]string{}, customModules...), "jklmint") {
+			pats = append(pats, "./x/"+m, "./x/"+m+"/keeper")
 		}
 	}
 	for _, rule := range writerRules[prop] {
@@ -183,6 +193,9 @@ func runCheck(repo, verif, prop, tier string, timeout, par int, keep bool) int {
 	}
 	if prop == "C05" {
 		results = append(results, w.structuralC05())
+	}
+	if prop == "C19" {
+		results = append(results, w.structuralC19())
 	}
 	if r := w.structuralWriters(prop); r != nil {
 		results = append(results, r)
